@@ -12,7 +12,7 @@ Definition lock_mo_ok (P : params) (k : lkind) : bool :=
   match k with
   | KSpin => is_acq (mo_spin_tas P) && is_rel (mo_spin_clear P)
   | KSync => is_acq (mo_sync_cas P) && is_rel (mo_sync_store P)
-  | KMutex => true
+  | KMutex | KTry => true
   end.
 
 Record LInv (s : lsys) : Prop := {
@@ -133,6 +133,12 @@ Proof.
       destruct (Z.eqb_spec (l_lock s) 0) as [L0|L0]; [|discriminate]. inv_some Hs.
       pose proof (Hfree L0) as Hnobody.
       constructor; simpl; [auto | g_excl Hex | g_free Hfree t | g_incs0 Hi0 t | g_incs1 Hi1 Hex t | auto].
+    + (* trylock loop: takes a free mutex, is refused on a held one *)
+      destruct (Z.eqb_spec (l_lock s) 0) as [L0|L0].
+      * inv_some Hs. pose proof (Hfree L0) as Hnobody.
+        constructor; simpl; [auto | g_excl Hex | g_free Hfree t | g_incs0 Hi0 t | g_incs1 Hi1 Hex t | auto].
+      * inv_some Hs.
+        constructor; simpl; [auto | g_excl Hex | g_free Hfree t | g_incs0 Hi0 t | g_incs1 Hi1 Hex t | auto].
   - (* LAfterFail *)
     destruct (l_kind s); inv_some Hs;
       (constructor; simpl; [auto | g_excl Hex | g_free Hfree t | g_incs0 Hi0 t | g_incs1 Hi1 Hex t | auto]).
@@ -245,6 +251,10 @@ Proof.
     + destruct (Z.eqb_spec (l_lock s) 0) as [L0|L0]; [|discriminate]. inv_some Hs.
       pose proof (Vfr L0) as Sf. pose proof (Hfree L0) as Hnobody.
       v_all Vse Vho Hex Hfree t.
+    + destruct (Z.eqb_spec (l_lock s) 0) as [L0|L0].
+      * inv_some Hs. pose proof (Vfr L0) as Sf. pose proof (Hfree L0) as Hnobody.
+        v_all Vse Vho Hex Hfree t.
+      * inv_some Hs. v_all Vse Vho Hex Hfree t.
   - destruct (l_kind s); inv_some Hs; v_all Vse Vho Hex Hfree t.
   - inv_some Hs; v_all Vse Vho Hex Hfree t.
   - destruct (l_lock s =? 1); [destruct (Nat.eqb ch 2); [|destruct (Nat.eqb ch 3)]|]; inv_some Hs; v_all Vse Vho Hex Hfree t.
@@ -261,6 +271,7 @@ Proof.
     destruct (l_kind s) eqn:Ek; simpl in Hmo; inv_some Hs.
     + apply andb_prop in Hmo as [Ma Mr]. v_all Vse Vho Hex Hfree t.
     + apply andb_prop in Hmo as [Ma Mr]. v_all Vse Vho Hex Hfree t.
+    + v_all Vse Vho Hex Hfree t.
     + v_all Vse Vho Hex Hfree t.
   - inv_some Hs; v_all Vse Vho Hex Hfree t.
   - destruct (first_blocked (l_thr s) (l_n s)) as [u|] eqn:Ef.
@@ -316,5 +327,11 @@ Proof. vm_compute. reflexivity. Qed.
 (* non-vacuity: the invariants speak about states in which a thread really is inside *)
 Example lock_nonvacuous :
   let s := exec lsys (lstep any_params true) (linit KSync 2 1) [(0,0);(0,0);(0,0);(1,0);(1,0)]%nat in
+  holds (l_pc (l_thr s 0%nat)) = true /\ l_pc (l_thr s 1%nat) = LAfterFail.
+Proof. vm_compute. split; reflexivity. Qed.
+
+(* the trylock loop: a thread is inside while another one has just been refused *)
+Example trylock_nonvacuous :
+  let s := exec lsys (lstep any_params true) (linit KTry 2 1) [(0,0);(0,0);(0,0);(1,0);(1,0)]%nat in
   holds (l_pc (l_thr s 0%nat)) = true /\ l_pc (l_thr s 1%nat) = LAfterFail.
 Proof. vm_compute. split; reflexivity. Qed.
